@@ -483,7 +483,11 @@ def _dominated_by_expiry(cfg, node_id, cmpn):
 def _cond_nodes_for(cfg, cmpn):
     """CFG cond nodes of a (possibly synthetic, helper-inlined) expiry comparison"""
     org = getattr(_expiry_compares, 'origin', {}).get(id(cmpn), cmpn)
-    return [x for x in U.nodes_containing(cfg, org) if x.kind == 'cond']
+    direct = [x for x in U.nodes_containing(cfg, org) if x.kind == 'cond']
+    if direct:
+        return direct
+    # the comparison kept in a boolean local (`expired = now - stamp > T` ... `if expired:`)
+    return U.decision_nodes(cfg, cfg.func, org)
 
 
 
@@ -544,7 +548,24 @@ def r_lock_guards(ctx):
             ctx.require(ent, 'acquire does not read the current entry into a local')
             g = ('or', ('none', ex.tb.term(ast.Name(id=ent, ctx=ast.Load())), True),
                  ('eq', ex.tb.term(U.parse_expr('%s[0]' % ent)), ex.tb.term(ast.Name(id=clientID, ctx=ast.Load()))))
-            ok, cex = U.must(ctx, res, n.id, g)
+            # ... or the entry that was read is known to be expired on this path (the code may keep the raw entry in one local
+            # and the "live" entry in another)
+            exp_lits = []
+            for cmpn_, op_, flipped_ in _expiry_compares(P, m, unlock):
+                if id(cmpn_) in getattr(_expiry_compares, 'origin', {}):
+                    continue
+                says_expired = (not flipped_ and isinstance(op_, (ast.Gt, ast.GtE))) or (flipped_ and isinstance(op_, (ast.Lt, ast.LtE)))
+                lit_ = ex.tb.literal(cmpn_, says_expired)
+                if lit_ is not None:
+                    exp_lits.append(lit_)
+            ok, cex = True, None
+            for fs_ in res.facts_at(n.id):
+                if oracle.entails(fs_, g) or any(oracle.entails(fs_, l_) for l_ in exp_lits):
+                    continue
+                ok, cex = False, fs_
+                break
+            if not res.facts_at(n.id):
+                ok = False
             val_ok = isinstance(a.node.value, ast.Tuple) and [unparse(e) for e in a.node.value.elts] == [clientID, now] and unparse(a.node.targets[0].slice) == lockID
             if ok and val_ok:
                 ctx.ok(inst, m.loc(a.node), 'entry is None or entry[0] == clientID entailed; stores (clientID, currentTime) under lockID')
